@@ -30,7 +30,7 @@ import asyncio
 import copy
 import os
 
-from aioslsk.events import MessageReceivedEvent, PeerInitializedEvent
+from aioslsk.events import ConnectionStateChangedEvent, MessageReceivedEvent, PeerInitializedEvent
 from aioslsk.network.connection import PeerConnection, ServerConnection
 from aioslsk.protocol import messages as M
 from aioslsk.protocol.primitives import PotentialParent
@@ -161,6 +161,9 @@ def generate(rng, index, tier):
                 has_parent = True
                 level = rng.choice([0, 1, 3])
                 steps.append({'op': 'parent_join', 'level': level, 'root': PARENT if level == 0 else 'r2', 'gap': gap})
+    if rng.random() < 0.15:
+        plan['asker_hangup'] = True
+        plan['slow_closing'] = rng.choice([0.05, 0.5, 2.0])
     if has_parent and rng.random() < 0.12:
         # the server connection is lost somewhere along the way (once); later requests come from the parent only
         pos = rng.randint(0, len(steps))
@@ -217,6 +220,13 @@ def corpus(tier):
             out.append(_plan([search(carrier), {'op': 'server_loss', 'how': how, 'gap': 0.3}, search(carrier, gap=1.0),
                               search(carrier, FRIEND, gap=0.3), {'op': 'join', 'peer': 'c2', 'gap': 0.3},
                               search(carrier, gap=1.0)], parent='default'))
+    # 8. the asker hangs up after each answer and the connection is slow to close: the next request of the same asker arrives
+    #    inside the closing window of the connection that carried the previous answer
+    for carrier in ('server', 'dist'):
+        for gap in (0.3, 0.8, 1.5, 3.0):
+            out.append(_plan([search(carrier, STRANGER), search(carrier, STRANGER, gap=gap), search(carrier, FRIEND, gap=gap),
+                              search(carrier, STRANGER, gap=gap)],
+                             parent=None if carrier == 'server' else 'default', asker_hangup=True, slow_closing=2.0))
     # 6. tickets at the edges of the range
     out.append(_plan([dict(search('dist'), ticket=t) for t in TICKETS]))
     return out
@@ -361,14 +371,26 @@ def _run(world: World, plan):
 
     async def preader(prec):
         link = prec['link']
+        got_reply = False
         while True:
-            msg = await link.recv('P')
+            if plan.get('asker_hangup') and got_reply:
+                # the asker hangs up once it has its answer and nothing more has come for half a second (an answer that
+                # is already on the wire is still read)
+                try:
+                    msg = await asyncio.wait_for(link.recv('P'), 0.5)
+                except asyncio.TimeoutError:
+                    world.net.fired['asker_hangs_up_after_reply'] += 1
+                    link.close()
+                    return
+            else:
+                msg = await link.recv('P')
             touch()
             if msg is None:
                 return
             if isinstance(msg, M.PeerSearchReply.Request):
                 prec['replies'].append((loop.time(), msg))
                 world.trace('reply', prec['peer'], msg.ticket, len(msg.results), len(msg.locked_results or []))
+                got_reply = True
 
     def make_accept(peer):
         async def on_accept(link):
@@ -387,6 +409,23 @@ def _run(world: World, plan):
 
     for peer in peers.values():
         peer.accept_handler = make_accept(peer)
+
+    wire = None
+    if plan.get('asker_hangup'):
+        from sim.xfer import WireTap
+        wire = WireTap(world, OWN)
+    if plan.get('slow_closing'):
+        # an application listener that is slow while a peer connection is closing: the connection that carried the last
+        # answer stays in its closing window for a while
+        from aioslsk.network.connection import ConnectionState as _CS
+
+        async def slow_closing(event):
+            if isinstance(event.connection, PeerConnection) and event.state == _CS.CLOSING \
+                    and event.connection.connection_type == 'P':
+                world.probe('slow_listener_held_closing')
+                await asyncio.sleep(float(plan['slow_closing']))
+        world.keep_alive.append(slow_closing)
+        client.events.register(ConnectionStateChangedEvent, slow_closing, priority=2000)
 
     async def dial_in(peer):
         state['tickets'] += 1
@@ -746,7 +785,13 @@ def _run(world: World, plan):
                 visible, locked = expectation
                 klass = 'both' if visible and locked else 'visible' if visible else 'locked'
                 facts = dict(base, matches=klass)
-                if not got and state.get('server_lost_at') is not None and state['server_lost_at'] <= td + 75.0:
+                written = wire is not None and any(
+                    isinstance(rec.get('msg'), M.PeerSearchReply.Request) and rec['msg'].ticket == req['ticket']
+                    and rec.get('peer') == asker for rec in wire.out)
+                if not got and written:
+                    # the client did write the answer; the asker had hung up (its own doing) before it arrived
+                    world.probe('reply_written_but_asker_had_hung_up')
+                elif not got and state.get('server_lost_at') is not None and state['server_lost_at'] <= td + 75.0:
                     # the answer needs the server (address of the asker, relayed connect): lost before it could be sent
                     world.probe('reply_not_judged_server_lost_later')
                 elif not got:
